@@ -335,7 +335,11 @@ def notify_gen(run):
     edge = dedupe_prefixes(run.generate('NotifyGen', cfgtext=nt_cfg(["c1", "c2", "c3"], ["x", "y", "z"], tail=t + 'INVARIANT EmitEdge\nVIEW EdgeView'), timeout=1200))
     nedge = len(edge)
     if not thorough:
-        edge = sample(edge, 2500, run.seed)
+        edge = sample(edge, 4000, run.seed)
+    # second edge set: the generation view also holds what each connection last saw (hidden state of caching bugs)
+    edge_seen = dedupe_prefixes(run.generate('NotifyGen', cfgtext=nt_cfg(["c1", "c2"], ["x", "y"] if thorough else ["x"], tail=t + 'INVARIANT EmitEdge\nVIEW SeenEdgeView'), timeout=1200))
+    nedge += len(edge_seen)
+    edge = edge + edge_seen
     n = 4 if thorough else 3
     words = run.generate('NotifyGen', cfgtext=nt_cfg(["c1", "c2"], ["x", "z"], consts='MaxLen = %d' % n, tail=t + 'INVARIANT EmitWord\nCONSTRAINT WordBound'), timeout=1800)
     nall = len(words)
@@ -640,3 +644,81 @@ def connwrite_family(run, replay=None):
                    'the race detector reports are filtered to stacks through hc\'s write path'],
                   'connwrite', confirm=confirm,
                   fpfun=lambda rule, b, line: '%s/%s' % (rule, 'stress' if line.get('ev') == 'stress' else 'second-writer-overtakes'))
+
+
+# =====================================================================================================
+# Storage (C18) and StorageCrash (C19)
+# =====================================================================================================
+
+def st_cfg(raw, names, weak=(), tail='', consts=''):
+    return '''CONSTANTS
+  RawKey = %s
+  Name = %s
+  Val = {"long", "mid", "short", "empty"}
+  VLen <- VLenDef
+  Weak = %s
+  %s
+CHECK_DEADLOCK FALSE
+%s
+''' % (tla_set(raw), tla_set(names), tla_set(weak), consts, tail)
+
+
+def storage_gen(run):
+    thorough = run.tier == 'thorough'
+    run.model_check('StorageMC', 'Storage_MC.cfg', workers=4)
+    t = 'INIT GInit\nNEXT GNext\n'
+    edge = dedupe_prefixes(run.generate('StorageGen', cfgtext=st_cfg(["k1", "k2"], ["n1", "n2"], tail=t + 'INVARIANT EmitEdge\nVIEW EdgeView'), timeout=900))
+    nedge = len(edge)
+    if not thorough:
+        edge = sample(edge, 3000, run.seed)
+    n = 4 if thorough else 3
+    words = run.generate('StorageGen', cfgtext=st_cfg(["k1"], ["n1"], consts='MaxLen = %d' % n, tail=t + 'INVARIANT EmitWord\nCONSTRAINT WordBound'), timeout=1800)
+    nall = len(words)
+    words = sample(words, 60000 if thorough else 3000, run.seed)
+    a = run.generate('StorageGen', cfgtext=st_cfg(["k1", "k2"], ["n1", "n2"], weak=["truncate_on_overwrite"], tail=t + 'INVARIANT NoAttack\nVIEW AttackView'), expect_violation=True)
+    if not a:
+        raise ToolTrouble('no attack history for truncate_on_overwrite')
+    depth = 40 if thorough else 14
+    sim = run.generate('StorageGen', cfgtext=st_cfg(["k1", "k2", "k3"], ["n1", "n2", "n3"], consts='SimLen = %d' % depth, tail=t + 'INVARIANT EmitSim'),
+                       simulate='num=%d' % (20000 if thorough else 600), heap='2g', timeout=1200, depth=depth + 1)
+    groups = [('edge', edge), ('word', words), ('attack:truncate_on_overwrite', [a[0]]), ('sim', sim)]
+    return groups, dict(edge_words=len(edge), edge_words_enumerated=nedge, words_enumerated=nall, words_replayed=len(words), word_len=n, sim_words=len(sim), sim_depth=depth)
+
+
+@register('C18')
+def storage_family(run, replay=None):
+    return generic_family(run, replay, hcv='storage', trace_mod='StorageTrace', gen=storage_gen,
+                          rules={'MapRule': 'C18', 'ListRule': 'C18'}, level='model_checking',
+                          assumptions=['a fresh temporary directory per history; concrete key names, entity names (arbitrary bytes up to 100, or the 36-character form) and value bytes are seeded per case',
+                                       'raw keys contain no colon (the file store strips colons from file names; the pairing database never produces one)',
+                                       'the monitor is the reference map itself: returned bytes are compared with every value written in the case and reported as its token'],
+                          rule_text='TLC-generated histories of Set / Get / Delete / listing / SaveEntity / EntityWithName / DeleteEntity / Entities / Reopen over up to 3 keys and 3 entity names with values of length 0, 5, 40, 4096 (one word per model transition, all words up to the stated length on one key and one name, the attack history of the missing truncation, simulation); distinct = abstract history; non-trivial = contains an overwrite or a delete followed by a read',
+                          nontrivial=lambda b: len([s for s in b['steps'] if s.get('op') in ('Set', 'SaveEntity', 'Delete', 'DeleteEntity')]) >= 2)
+
+
+@register('C19')
+def storagecrash_family(run, replay=None):
+    def gen(run):
+        run.model_check('StorageCrash', 'StorageCrash_MC.cfg', workers=4)
+        scen = run.generate('StorageCrashGen', cfgtext='CONSTANTS\n  Lens = {0, 5, 40, 4096}\n  Protocol = "rename"\nINIT Init\nNEXT Next\nINVARIANT EmitInit\nCONSTRAINT OnlyInit\nCHECK_DEADLOCK FALSE\n')
+        scen = [json.loads(x) for x in sorted(set(json.dumps(s) for s in scen))]
+        words = []
+        for s in scen:
+            for op in ('set', 'saveentity'):
+                words.append([dict(op=op, old=s[0]['old'], new=s[0]['new'])])
+        words.append([dict(op='transport', old='absent', new='long')])
+        words.append([dict(op='transport', old='long', new='long')])
+        return [('crash', words)], dict(value_pairs=len(scen), operations=3, exhaustive=True)
+
+    def extra(lines, behs):
+        pts = sorted(set(x.get('point') for x in lines))
+        return dict(child_processes=len(lines), killed=sum(1 for x in lines if x.get('killed')), crash_points=pts,
+                    protocol_indicated_by_crash_points='rename' if any('tmp' in p for p in pts) else 'inplace')
+    rc = generic_family(run, replay, hcv='storagecrash', trace_mod='StorageCrashTrace', gen=gen,
+                        rules={'AtomicRule': 'C19', 'Completed': 'C19', 'OthersUntouched': 'C19', 'NoTempListed': 'C19'}, level='fault_enumeration',
+                        assumptions=['a crash is a SIGKILL of the writing process at a crash point between the file-system operations of fileStorage.Set (verif hook); power loss (unsynced directory entries) is out of scope',
+                                     'the parent re-opens the directory with a fresh store and compares byte-for-byte with the old and the new value'],
+                        rule_text='every (old value, new value) pair over absent / 0 / 5 / 40 / 4096 bytes (the initial states of StorageCrash.tla) x every crash point the operation passes (counted by a recording run) x {Set, SaveEntity}, plus the construction of a transport (uuid, version, configHash, device entity) on an empty and on a used directory; distinct = (operation, old, new); non-trivial = old and new differ in length',
+                        nontrivial=lambda b: b['steps'][0].get('old') != b['steps'][0].get('new'), extra_cov=extra,
+                        fpfun=lambda rule, b, line: '%s/%s,old=%s,new=%s,point=%s,key=%s' % (rule, line.get('op'), 'absent' if line.get('old') == 'absent' else 'present', 'x', line.get('point'), line.get('key')))
+    return rc
